@@ -37,6 +37,25 @@ theorem getNsName_idempotent (ns ns' name : String) : Dos.getNsName ns' (Dos.get
     apply containsChars_append_left
     simp [Go.containsChars]
 
+/-- `isMatchingResourceRef` (which WAF policies a changed App Protect resource reaches): a bare reference means the owner's
+namespace, a qualified one is compared as it is. -/
+theorem isMatchingResourceRef_bare (ns ref key : String) (h : Go.contains ref "/" = false) :
+    K8sWaf.isMatchingResourceRef ns ref key = (ns ++ "/" ++ ref == key) := by
+  simp [K8sWaf.isMatchingResourceRef, Id.run, h, Go.fmt, Go.Fmt.fmt]; rfl
+
+theorem isMatchingResourceRef_qualified (ns ref key : String) (h : Go.contains ref "/" = true) :
+    K8sWaf.isMatchingResourceRef ns ref key = (ref == key) := by
+  simp [K8sWaf.isMatchingResourceRef, Id.run, h]; rfl
+
+/-- the reverse lookup agrees with the forward resolution: a reference matches exactly the key `getNsName` resolves it to
+(the DoS and WAF sides use the same convention) -/
+theorem matching_is_resolution (ns ref key : String) :
+    K8sWaf.isMatchingResourceRef ns ref key = (Dos.getNsName ns ref == key) := by
+  by_cases h : Go.contains ref "/" = true
+  · rw [isMatchingResourceRef_qualified ns ref key h, getNsName_qualified ns ref h]
+  · have h' : Go.contains ref "/" = false := by simpa using h
+    rw [isMatchingResourceRef_bare ns ref key h', getNsName_bare ns ref h']
+
 /-- `isChallengeIngress` looks at the solver label only -/
 theorem isChallenge_by_label (ing : Ingress) :
     K8sUtils.isChallengeIngress ing = (Go.idx ing.ObjectMeta.Labels "acme.cert-manager.io/http01-solver" == "true") := rfl
